@@ -1146,6 +1146,28 @@ pub fn f6_rec_programs() -> Vec<Program> {
         Stmt::Res(rel(var("@self"), vec![xfer(Method::Get, E::Content(vec![], None))])),
     ]));
     programs.push(single(vec![let_("@c", content(var("@c"))), get(var("@c"))]));
+    // a rec whose body is a relation that mentions the binder inside a transfer (a link to self)
+    programs.push(single(vec![Stmt::Res(E::Rec(
+        "self_".into(),
+        Box::new(E::Paren(Box::new(rel(
+            E::Uri(vec![Seg::Lit("nodes".into()), Seg::Var(Box::new(prop("id", E::Prim(Prim::Int))))], None),
+            vec![xfer(Method::Get, content(obj(vec![prop("self", var("self_")), prop("children", arr(var("self_")))])))],
+        )))),
+    ))]));
+    programs.push(single(vec![
+        let_(
+            "node",
+            E::Rec(
+                "me".into(),
+                Box::new(E::Paren(Box::new(rel(
+                    uri_lit(&["node"]),
+                    vec![xfer(Method::Get, content(obj(vec![prop("me", var("me"))])))],
+                )))),
+            ),
+        ),
+        Stmt::Res(var("node")),
+        get_at("b", content(obj(vec![prop("link", var("node"))]))),
+    ]));
     // modules laid out alike (corresponding declarations sit at the same place of their trees):
     // a recursive declaration beside an imported one of the same name and shape that is not
     // recursive, and a wrapper function around an imported function of the same shape
@@ -2169,6 +2191,16 @@ pub fn f10() -> Fragment {
             get(content(app("f", vec![num(), str_(), E::Prim(Prim::Bool)]))),
         ]));
     }
+    // percent escapes in literal segments stay what they are (an escaped brace is no variable,
+    // an escaped slash no separator)
+    programs.push(single(vec![
+        Stmt::Res(rel(uri_lit(&["docs", "placeholders", "%7Bname%7D"]), vec![xfer(Method::Get, E::Content(vec![], None))])),
+        Stmt::Res(rel(uri_lit(&["a%2Fb", "caf%C3%A9"]), vec![xfer(Method::Get, E::Content(vec![], None))])),
+        Stmt::Res(rel(
+            E::Uri(vec![Seg::Lit("docs".into()), Seg::Lit("placeholders".into()), Seg::Var(Box::new(prop("name", str_())))], None),
+            vec![xfer(Method::Put, E::Content(vec![], None))],
+        )),
+    ]));
     // two name errors in one program: a declaration written twice and a use of an undefined
     // name (which one is reported must not depend on the order of the statements)
     programs.push(single(vec![
